@@ -31,10 +31,25 @@ def length_guard(ctx, rule, root, cfg="A"):
     il = fidx(ctx, GGM, "inp_len", cfg)
     want = None
     # every call touching the key is dominated by eq(len(input), self.inp_len)
-    touched = [e for e in Q.calls(eng, None)
-               if e["local"] and any("self.%d" % fidx(ctx, GGM, "key", cfg) in p or p == "self"
-                                     for a in e["argv"] for p in Q.params(Q.leaves(a)))
-               and e["frame"] == fr.key]
+    ik = fidx(ctx, GGM, "key", cfg)
+    kpre = "self.%d" % ik
+
+    def touches_key(e):
+        deps = set()
+        for a in e["argv"]:
+            deps |= Q.params(Q.leaves(a))
+        if any(p == kpre or p.startswith(kpre + ".") for p in deps):
+            return True
+        if "self" in deps:
+            # whole `self` handed to a helper: a key access iff something below that call reads the key
+            sub = e["frame"] + "/" + str(e["block"])
+            for e2 in eng.events.values():
+                if e2["kind"] == "call" and e2["frame"].startswith(sub):
+                    for a in e2["argv"]:
+                        if any(p == kpre or p.startswith(kpre + ".") for p in Q.params(Q.leaves(a))):
+                            return True
+        return False
+    touched = [e for e in Q.calls(eng, None) if e["local"] and e["frame"] == fr.key and touches_key(e)]
     okall = bool(touched)
     bad = []
     for e in touched:
